@@ -38,7 +38,17 @@ pub fn shapes(heavy: bool) -> Vec<(u32, &'static str, NodeSpec, bool)> {
 }
 
 fn alphabet(heavy: bool, refs: bool, derefs: bool) -> Vec<Tx> {
+	alphabet_v(heavy, refs, derefs, false)
+}
+
+fn alphabet_v(heavy: bool, refs: bool, derefs: bool, rc_roots: bool) -> Vec<Tx> {
 	let mut a: Vec<Tx> = vec![];
+	if rc_roots {
+		// several count-changing operations on one root inside one transaction
+		a.push(vec![(0, Op::RefTree(rk(1))), (0, Op::DerefTree(rk(1)))]);
+		a.push(vec![(0, Op::DerefTree(rk(1))), (0, Op::DerefTree(rk(1)))]);
+		a.push(vec![(0, Op::RefTree(rk(1))), (0, Op::RefTree(rk(1)))]);
+	}
 	for (k, _, spec, _) in shapes(heavy) {
 		a.push(vec![(0, Op::InsertTree(rk(k), spec))]);
 	}
@@ -175,7 +185,7 @@ pub fn tree_spec(variant: &str) -> ColSpec {
 fn scenario(name: &str, variant: &str, heavy: bool, n: usize, x: usize, drained: bool) -> Scenario {
 	let spec = tree_spec(variant);
 	let cfg = Config::new(vec![spec.clone()]);
-	let alpha = alphabet(heavy, true, true);
+	let alpha = alphabet_v(heavy, true, true, spec.ref_counted);
 	let mut s = Scenario::new(&format!("{}/{}", variant, name), cfg.clone(), alpha.clone());
 	s.universe = universe_of(&cfg, &alpha, &[]);
 	s.max_commits = n;
@@ -201,7 +211,58 @@ fn scenario(name: &str, variant: &str, heavy: bool, n: usize, x: usize, drained:
 	s
 }
 
+/// two trees sharing ~2000 nodes: T2 names every leaf of T1 as an existing child (several shared nodes fall into
+/// the same reference-count chunk), then T1 is dereferenced: every leaf must survive under T2
+fn wide_sharing() -> Scenario {
+	let spec = tree_spec("plain");
+	let cfg = Config::new(vec![spec]);
+	let groups = 8u32;
+	let per = 250u32;
+	let t1 = NodeSpec {
+		data: B::pat(5, 1),
+		children: (0..groups).map(|g| ChildSpec::New(NodeSpec { data: B::pat(6, 10 + g), children: (0..per).map(|i| ChildSpec::New(leaf(5000 + g * 1000 + i, 4))).collect() })).collect(),
+	};
+	let t2 = NodeSpec {
+		data: B::pat(5, 2),
+		children: (0..groups).map(|g| ChildSpec::New(NodeSpec { data: B::pat(6, 20 + g), children: (0..per).map(|i| ChildSpec::Existing(rk(1), vec![g, i])).collect() })).collect(),
+	};
+	let alpha: Vec<Tx> = vec![vec![(0, Op::InsertTree(rk(1), t1))], vec![(0, Op::InsertTree(rk(2), t2))], vec![(0, Op::DerefTree(rk(1)))], vec![(0, Op::DerefTree(rk(2)))]];
+	let mut s = Scenario::new("plain/wide-sharing-2000-nodes", cfg.clone(), alpha.clone());
+	s.universe = universe_of(&cfg, &alpha, &[]);
+	s.max_commits = 4;
+	s.max_rejects = 0;
+	s.max_reopen = 1;
+	s.stages = vec![];
+	s.drain_event = true;
+	s.pm = false;
+	let tf = tree_filter(false, false);
+	// one fixed order of commits (insert T1, insert T2, dereference one, dereference the other), reopen anywhere
+	s.filter = Some(Arc::new(move |hist: &[Ev], ev: &Ev| {
+		let ncommits = hist.iter().filter(|e| matches!(e, Ev::Commit(_))).count();
+		let ok = match (hist.last(), ev) {
+			(Some(Ev::Commit(_)), Ev::Drain) => true,
+			(Some(Ev::Commit(_)), _) => false,
+			(_, Ev::Drain) => false,
+			(_, Ev::Commit(tx)) => match (&tx[0].1, ncommits) {
+				(Op::InsertTree(k, _), 0) => *k == rk(1),
+				(Op::InsertTree(k, _), 1) => *k == rk(2),
+				(Op::DerefTree(_), 2) | (Op::DerefTree(_), 3) => true,
+				_ => false,
+			},
+			_ => true,
+		};
+		ok && tf(hist, ev)
+	}));
+	s
+}
+
 pub fn scenarios(tier: &str) -> Vec<Scenario> {
+	let mut v = scenarios_base(tier);
+	v.push(wide_sharing());
+	v
+}
+
+fn scenarios_base(tier: &str) -> Vec<Scenario> {
 	if tier == "thorough" {
 		vec![
 			scenario("n2-stages", "plain", true, 2, 1, false),
